@@ -17,10 +17,11 @@ RULE = ("random edit histories (1-25 calls quick, 1-60 thorough; 2-7 labels mixi
         "call all read paths are cross-checked in the worker and the dump is compared with the Coq model's step. The cross-check includes to_numpy_vectors with every option combination (variable_order None / reversed / rotated, sort_indices, sort_labels, return_labels) on the base object and on its .spin/.binary handles: every (row label, col label, bias) triple is an interaction with that bias, each exactly once, linear vector in label order. Generated cases avoid "
         "the inputs of the reported defects (kept in corpus/C04); a float history is cut where a value needs more than 17 (float32) / "
         "44 (float64) significant bits; non-trivial = at least one successful call; distinct by case JSON")
-TRUSTED = ["model: coq/theories/Model/Poly.v, View.v, Hist.v, ChkC04.v (hand-written mirror of the public BQM/QM methods and vartypeview.py)",
+TRUSTED = ["translator translators/qm_limits.py (vartypes.h limits table and the shape of cyQM.add_variable checks, fail-closed)", "model: coq/theories/Model/Poly.v, View.v, Hist.v, ChkC04.v (hand-written mirror of the public BQM/QM methods and vartypeview.py)",
            "labels chosen by automatic labelling on resize are taken from the implementation (their rule is property C13)",
            "float arithmetic of the implementation is exact on the generated dyadic data (guarded by the significant-bit cut)"]
 ASSUMPTIONS = ["IEEE-754 arithmetic is exact on dyadic values that fit the significant-bit guard",
                "Python label equality is modelled by the label table (ints, strings, tuples only; no numeric aliases)"]
-PARTIAL = ["C04_failed_op_is_noop covers every all-or-nothing call on a well-formed BQM (base object and view handles); for a QM the base-object calls decided before the first write are covered (C04_failed_op_is_noop_direct, C04_qm_update_is_noop_on_conflict); QM flip_variable / fix_variable / add_linear(default_vartype=...) atomicity is only checked by the correspondence",
-           "contract_variables energy theorem and a Coq-level backends_indistinguishable (dict-order vs array-order step) are not proved; both are checked on every generated history by the correspondence"]
+PARTIAL = ["C04_qm_flip_is_noop_on_failure needs the side condition that no neighbour is a REAL variable; without it flip_variable is not all-or-nothing (C04_qm_flip_refuted, corpus d9)",
+           "C04_backends_same_step relates the dict-order and array-order relabelling rules from the SAME state (outcome, polynomial, set of variable records); a history-level statement does not hold for the order-dependent calls (pop, resize shrink, relabel_as_integers) once the orders differ and is checked per history by the correspondence instead",
+           "C04_contract_energy is proved for the base object (Direct handle); contraction through a .spin/.binary handle is covered by atomicity/well-formedness theorems and the correspondence only"]
